@@ -31,26 +31,44 @@ class _TransformedFnCache(object):
   __slots__ = ('_cache',)
 
   def __init__(self):
-    self._cache = weakref.WeakKeyDictionary()
+    # Maps id(key) to (weak reference to key, bucket). Keys are matched by
+    # identity: distinct code objects compare equal whenever their contents
+    # match (file name, defaults and globals are not part of the comparison),
+    # and an entry filed under an equal object would disappear with it.
+    self._cache = {}
 
   def _get_key(self, entity):
     raise NotImplementedError('subclasses must override')
 
+  def _bucket(self, key, create):
+    entry = self._cache.get(id(key), None)
+    if entry is not None and entry[0]() is key:
+      return entry[1]
+    if not create:
+      return None
+
+    cache = self._cache
+    key_id = id(key)
+
+    def remove(ref):
+      current = cache.get(key_id, None)
+      if current is not None and current[0] is ref:
+        del cache[key_id]
+
+    parent = {}
+    cache[key_id] = (weakref.ref(key, remove), parent)
+    return parent
+
   def has(self, entity, subkey):
-    key = self._get_key(entity)
-    parent = self._cache.get(key, None)
+    parent = self._bucket(self._get_key(entity), create=False)
     if parent is None:
       return False
     return subkey in parent
 
   def __getitem__(self, entity):
-    key = self._get_key(entity)
-    parent = self._cache.get(key, None)
-    if parent is None:
-      # The bucket is initialized to support this usage:
-      #   cache[key][subkey] = value
-      self._cache[key] = parent = {}
-    return parent
+    # The bucket is initialized to support this usage:
+    #   cache[key][subkey] = value
+    return self._bucket(self._get_key(entity), create=True)
 
   def __len__(self):
     return len(self._cache)
